@@ -10,7 +10,7 @@ from ..model import AnchorMissing, Func, bind_args, dotted, norm, walk_no_nested
 from ..report import Ctx
 from ..variants import Variant
 from .c03 import BEATS_REF, _ancestors, _neg, _score_thr_key, add_entry_func, pure_labelmap_method
-from .common import MatcherAtoms, assignments_to, calls_resolving_to, matcher_loop, metric_enum_class, single_def
+from .common import MatcherAtoms, assignments_to, calls_resolving_to, matcher_loop, metric_enum_class, resolve_alias, single_def
 
 INFO = {
     "explanation": "Path conditions of both add_labelmap_entry sites of MaximizeMergeMatching._match_instances are evaluated on the full truth table over (prediction assigned, reference assigned, metric direction, ordering(score,threshold), ordering(new combined score, recorded score)): (R14.1) prediction unassigned at both sites; (R14.2) a reference is first matched only by a single prediction meeting the threshold; (R14.3) a merge is accepted exactly on strict improvement in the metric's direction; (R14.4) the recorded score of the reference is updated with the justifying score in the same branch; (R14.5) the combined score is the matching metric on (reference array, prediction array, reference label, already matched predictions + candidate) of the uncropped pair.",
@@ -82,7 +82,11 @@ def check_merge(ctx: Ctx):
         binding, _ = bind_args(add, c)
         pa = binding.get(add.call_params[0].name)
         ra = binding.get(add.call_params[1].name) if len(add.call_params) > 1 else None
-        okb = isinstance(pa, ast.Name) and pa.id == pred and isinstance(ra, ast.Name) and ra.id == ref
+        pa_r = resolve_alias(f, pa) if isinstance(pa, ast.Name) else pa
+        ra_r = resolve_alias(f, ra) if isinstance(ra, ast.Name) else ra
+        okb = isinstance(pa_r, ast.Name) and pa_r.id == pred and isinstance(ra_r, ast.Name) and ra_r.id == ref
+        # both arguments are candidate labels but not in their own parameters: decided wrong
+        crossed = isinstance(pa_r, ast.Name) and isinstance(ra_r, ast.Name) and {pa_r.id, ra_r.id} <= {pred, ref} and not okb
         pcs = path_condition(f, c)
         stale = [pc for pc in pcs if is_stale(pc, pure_labelmap_method(prog))]
         prem = [atoms.form.compile(pc.expr) if pc.polarity else _neg(atoms.form.compile(pc.expr)) for pc in pcs if pc not in stale]
@@ -95,7 +99,7 @@ def check_merge(ctx: Ctx):
         v_ncr, _ = implication(form, prem, lambda a: not a["cr"])
         kind = "merge" if v_cr is True else "first" if v_ncr is True else "unknown"
         construct = f"{construct}[{kind}]"
-        ctx.decide("R14.1", f, c, construct + ":binding", "label map entry binds (prediction label -> reference label) of the candidate", True if okb else None, {"pred_arg": norm(pa) if pa else None, "ref_arg": norm(ra) if ra else None})
+        ctx.decide("R14.1", f, c, construct + ":binding", "label map entry binds (prediction label -> reference label) of the candidate", True if okb else (False if crossed else None), {"pred_arg": norm(pa) if pa else None, "ref_arg": norm(ra) if ra else None})
 
         def dec(v, w):
             return (None if (stale and v is False) else v), ({"row": w, "path_condition": pc_txt} if w else {"path_condition": pc_txt})
